@@ -32,7 +32,7 @@ def q(tier, quick, thorough):
     return quick if tier == "quick" else thorough
 
 
-DIRECTED = "stun-flood,listen-random-ports,sudp-close-under-traffic,sudp-close-under-traffic,many-proxies-drop"
+DIRECTED = "stun-flood,listen-random-ports,sudp-close-under-traffic,sudp-close-under-traffic,many-proxies-drop,plugin-users"
 
 
 def race_build(wait=True, proc=None):
@@ -116,7 +116,12 @@ def recipe(c: Check):
              "JSON frames, garbage, dropped control connections; every work / visitor connection the child opens gets a mutated StartWorkConn / "
              "NewVisitorConnResp and payload for its handler; every 12 messages a watchdog (child alive; the standing session, else a re-login "
              "within 12 s, bridges bytes through the plain tcp proxy to the local echo and back); directed scenarios (STUN answers x120, "
-             "ListenRandomPorts = MaxInt32, session end while datagrams pour into the sudp visitor); 136 proxies and a lost control connection); the frps barrage ends with 40 rounds of "
+             "ListenRandomPorts = MaxInt32, session end while datagrams pour into the sudp visitor); 136 proxies and a lost control connection, an enumeration of user requests to every plugin proxy incl. every authorization header "
+             "variant); junk datagrams of every length 0..64 hit the sockets the child announces during hole punching; the frps barrage ends with "
+             "directed phases: raw user requests on the tcpmux / vhost http / vhost https ports (missing and adversarial Host, absolute-form targets, "
+             "huge headers, ClientHello variants), 14 complete NAT-hole exchanges (scripted owner + visitor) with adversarial address lists, 2 "
+             "sessions whose peer writes without reading until the server's send queue is full and then resets (a login with the same run id "
+             "must be answered), 40 rounds of "
              "udp proxies closed under datagram traffic and 40 anonymous ssh connections to the ssh tunnel gateway (exec payloads with free "
              "length fields, mutated frp command lines, tcpip-forward requests, unknown channel types, early ends; ssh watchdog: a well-formed "
              "tunnel carries a user connection). racebarrage: 120 barrage cases weighted towards same-run-id re-logins overlapping registrations "
